@@ -5,7 +5,7 @@
    statement by statement (base options, first matching entry, proposer-level overwrite,
    reset, update / remove / add of relays); [resolve_v2] / [resolve_v1] are the documented
    precedence.  Relay maps are key-unique association lists ([wf_config2]: Go maps). *)
-From Verif Require Import Lib.Base Model.C10_ExecConfig Proofs.C10 Proofs.C10_Json Check.C10 Proofs.C10_Check.
+From Verif Require Import Lib.Base Model.C10_ExecConfig Model.C10_Service Proofs.C10 Proofs.C10_Json Proofs.C10_Service Check.C10 Proofs.C10_Check.
 From Coq Require Import Permutation.
 
 (* ------------------------------------------------------------------------------------------- *)
@@ -231,6 +231,43 @@ Proof. exact roundtrip_meaning. Qed.
 Print Assumptions C10_roundtrip_meaning.
 
 (* ------------------------------------------------------------------------------------------- *)
+(* The block relay service in front of the configuration (Model/C10_Service.v): ONE instance,
+   any history of refreshes (a document that is accepted, a document that is refused, nothing
+   obtained) and of lookups (direct — proposal preparer, --proposer-config-check, and with a nil
+   account UnblindBlock and ValidatorRegistrations — or through AuctionBlock).  Wherever a lookup
+   stands in the history, its answer is what the documented precedence gives for ITS OWN public
+   key and account under the last document accepted before it (the fallback fee recipient and no
+   relays before the first one): nothing asked earlier, with or without the account, counts. *)
+Theorem C10_service_history :
+  forall (st : svc_state) (pre : list sop) (a : asker) (v : validator) (post : list sop) (fbfee fbgas : N),
+    svc_wf st -> Forall op_wf pre ->
+    nth (count_lookups pre) (svc_run st (pre ++ SLookup a v :: post) fbfee fbgas) OPanic
+    = view a (match latest (rev pre) st with
+              | None => OOk (fallback_cfg fbfee)
+              | Some c => resolve c v fbfee fbgas
+              end).
+Proof. exact service_history. Qed.
+Print Assumptions C10_service_history.
+
+(* the whole list of answers of a history is the specification's, operation by operation *)
+Theorem C10_service_run_is_spec :
+  forall (ops : list sop) (fbfee fbgas : N),
+    Forall op_wf ops ->
+    svc_run None ops fbfee fbgas = svc_spec_run resolve [] None ops fbfee fbgas.
+Proof. intros ops fbfee fbgas H. exact (svc_run_is_spec ops [] None fbfee fbgas I H). Qed.
+Print Assumptions C10_service_run_is_spec.
+
+(* Lookups leave no trace: two histories with the same refreshes answer a lookup alike, whatever
+   was looked up before it, in whatever order, with or without account (no hypothesis at all). *)
+Theorem C10_service_lookups_leave_no_trace :
+  forall (st : svc_state) (pre pre' : list sop) (a : asker) (v : validator) (post post' : list sop) (fbfee fbgas : N),
+    filter is_refresh pre = filter is_refresh pre' ->
+    nth (count_lookups pre) (svc_run st (pre ++ SLookup a v :: post) fbfee fbgas) OPanic
+    = nth (count_lookups pre') (svc_run st (pre' ++ SLookup a v :: post') fbfee fbgas) OPanic.
+Proof. exact service_lookups_leave_no_trace. Qed.
+Print Assumptions C10_service_lookups_leave_no_trace.
+
+(* ------------------------------------------------------------------------------------------- *)
 (* The check itself.  [P_b] (evaluated on what the implementation returned, never through the
    procedural model) being true means: a document without meaning was refused; otherwise every
    validator got the settings of the documented precedence (same error; or same fee recipient and
@@ -248,6 +285,15 @@ Theorem C10_agree_wf :
     forall v, lookup cfg v (c_fbfee c) (c_fbgas c) = resolve cfg v (c_fbfee c) (c_fbgas c).
 Proof. exact agree_wf. Qed.
 Print Assumptions C10_agree_wf.
+
+(* ... and the history of the case: every document a refresh accepted has key-unique relay maps
+   (the hypothesis of C10_service_history), and the observed answers are the specification's. *)
+Theorem C10_agree_hist_wf :
+  forall c : case, agree c = true ->
+    Forall op_wf (c_ops c) /\
+    Forall2 outcome_equiv (svc_spec_run resolve [] None (c_ops c) (c_fbfee c) (c_fbgas c)) (c_hist c).
+Proof. exact agree_hist_wf. Qed.
+Print Assumptions C10_agree_hist_wf.
 
 (* ------------------------------------------------------------------------------------------- *)
 (* Non-vacuity: the example the tests do not have — a proposer-level value, a relay-level default
@@ -343,3 +389,24 @@ Example C10_example_v1_fieldwise :
   map rc_addr (pc_relays (resolve_v1_doc c 1 99 30000000)) = [1; 2] /\
   v1_entry_complete c 1 = false /\ v1_entry_complete c 2 = true.
 Proof. repeat split. Qed.
+
+(* a history on one service: no configuration yet; the document of C10_example_roundtrip arrives;
+   the validator's key is asked WITHOUT its account (as when unblinding), then WITH it (pattern 5
+   matches: reset_relays, relay 3 only), then without again, then through an auction; a refused
+   document and an unavailable source change nothing; an empty version 2 document does. *)
+Example C10_example_service_history :
+  let v_with := {| v_key := 1; v_accts := [5] |} in
+  let v_without := {| v_key := 1; v_accts := [] |} in
+  let r3 := {| rc_addr := 3; rc_pk := None; rc_fee := 11; rc_gas := 7; rc_grace := 1000000; rc_min := (123456789012345678, 0%Z) |} in
+  let r1 := {| rc_addr := 1; rc_pk := None; rc_fee := 11; rc_gas := 100; rc_grace := 1000000; rc_min := (5, 17%Z) |} in
+  let r2 := {| rc_addr := 2; rc_pk := None; rc_fee := 11; rc_gas := 7; rc_grace := 1000000; rc_min := (5, 17%Z) |} in
+  svc_run None [ SLookup ADirect v_with; SRefresh (FDoc ex_doc);
+                 SLookup ADirect v_without; SLookup ADirect v_with; SLookup ADirect v_without; SLookup AAuction v_with;
+                 SRefresh (FDoc (JObj [(FVersion, JNum 1)])); SRefresh FNothing; SLookup ADirect v_with;
+                 SRefresh (FDoc (JObj [(FVersion, JNum 2)])); SLookup ADirect v_with; SLookup AAuction v_with ] 99 7
+  = [ OOk (fallback_cfg 99);
+      OOk {| pc_fee := 11; pc_relays := [r1; r2] |}; OOk {| pc_fee := 11; pc_relays := [r3] |};
+      OOk {| pc_fee := 11; pc_relays := [r1; r2] |}; OOk {| pc_fee := 11; pc_relays := [r3] |};
+      OOk {| pc_fee := 11; pc_relays := [r3] |};
+      OOk (fallback_cfg 99); OOk (fallback_cfg 0) ].
+Proof. reflexivity. Qed.
